@@ -100,6 +100,7 @@ def is_storage_layer(b):
 
 
 # ---- errors of streamed repository reads are not filtered away ---------------------------------------------
+REPO_READ = re.compile(r"stream_all|stream_list|TreeStreamer|NodeStreamer|DecryptReadBackend|ReadBackend(>)?::(read_full|read_partial|list|list_with_size)|get_file|read_encrypted|from_backend|iter_all_from_backend|Tree::from_backend|SnapshotFile|IndexFile|KeyFile|find_id")
 ITER_DROP = re.compile(r"^std::iter::Iterator::(flatten|flat_map)$|ParallelIterator::(flatten|flatten_iter)$")
 OK_FN = re.compile(r"^std::result::Result::<T, E>::ok$")
 ITER_EXC = {
@@ -132,6 +133,13 @@ def run_iter(ctx, rep, rule):
                         if OK_FN.search(p) and "RusticError" in ga + " ".join(a[1]["fn"].get("gargs") or []):
                             hit = cd.rsplit("::", 1)[-1] + "(Result::ok)"
             if hit:
+                # only iterators fed by reads of the REPOSITORY are in scope (files, trees, listings); pipelines over the
+                # backup source or a local directory walk skip unreadable entries by design
+                recv = op_place(t["args"][0]) if t["args"] else None
+                prov = flow.backward_slice(b, recv)["calls"] if recv else set()
+                if not any(REPO_READ.search(c) for c in prov) and not REPO_READ.search(ga):
+                    rep.check(rule, f"{fn_key(b)}/{hit}/not-a-repository-read", True, where=where(b, bb), what=f"{fn_key(b)}: {hit} over Result items that do not come from repository reads (source / local walk): out of scope", nontrivial=False)
+                    continue
                 n += 1
                 k = fn_key(b)
                 why = ITER_EXC.get(k)
